@@ -46,7 +46,7 @@ def main():
 
     import chmodel
 
-    chmodel.install(mode)
+    chmodel.install(mode, os.environ.get("VERIF_SPECIAL_RE") or None)
 
     with prefer_pure_python_imports():
         spec = importlib.util.spec_from_file_location(os.path.basename(path)[:-3], path)
